@@ -17,7 +17,7 @@ Record case := {
   h_error : bool                 (* the history raised *)
 }.
 
-Definition init_state (c : case) : hstate := {| hs_nodes := Some []; hs_glob := h_glob c; hs_reg := h_reg c |}.
+Definition init_state (c : case) : hstate := {| hs_nodes := Some []; hs_glob := h_glob c; hs_outer := []; hs_reg := h_reg c |}.
 
 (* pair the model's answers (only listing/duration observations) with the implementation's *)
 Fixpoint model_answers (s : hstate) (h : list hcmd) : list (option (option obs)) :=
